@@ -22,21 +22,58 @@ pub fn scratch_dir(tag: &str) -> PathBuf {
     p
 }
 
-/// The roller prints `err compressing: …` on stdout when its last step fails; stdout is the
-/// observation channel, so fd 1 points to /dev/null while the real code runs.
+/// Run the real code with fd 1 on a device that CANNOT be written (`/dev/full`: every write fails
+/// with ENOSPC; where that does not exist, a pipe whose read end is closed: EPIPE — SIGPIPE is
+/// ignored by the Rust runtime). stdout is not the observation channel (main.rs keeps a private
+/// duplicate for the protocol), and a daemon's stdout being a closed pipe or a full device is an
+/// ordinary process condition: anything in the rolled code that `println!`s (the roller used to do
+/// so on a failed final step) then panics instead of returning its error, and the executor sees it.
+/// Pointing fd 1 at /dev/null here, as this helper did before, hid exactly that.
 pub fn quiet_stdout<T>(f: impl FnOnce() -> T) -> T {
-    use std::os::unix::io::AsRawFd;
+    use std::os::unix::io::{AsRawFd, IntoRawFd};
     let _ = std::io::stdout().flush();
+    let unwritable: i32 = match std::fs::OpenOptions::new().write(true).open("/dev/full") {
+        Ok(f) => f.into_raw_fd(),
+        Err(_) => {
+            let mut fds = [0i32; 2];
+            unsafe {
+                libc::pipe(fds.as_mut_ptr());
+                libc::close(fds[0]);
+            }
+            fds[1]
+        }
+    };
     let devnull = std::fs::OpenOptions::new().write(true).open("/dev/null").unwrap();
     let saved = unsafe { libc::dup(1) };
-    unsafe { libc::dup2(devnull.as_raw_fd(), 1) };
+    unsafe { libc::dup2(unwritable, 1) };
     let r = f();
+    // what a failed `println!` left in the std buffer must not reach the next case: drain it into
+    // /dev/null before fd 1 is handed back
+    unsafe { libc::dup2(devnull.as_raw_fd(), 1) };
     let _ = std::io::stdout().flush();
     unsafe {
         libc::dup2(saved, 1);
         libc::close(saved);
+        libc::close(unwritable);
     }
     r
+}
+
+/// Run `f` on a thread of its own and give up after `secs`: `None` = it never returned (the thread
+/// is leaked, together with whatever it holds). Used for rolls under `background_rotation`: a rotation
+/// thread that dies before it sets `ready` makes the next roll wait for ever.
+pub fn run_with_timeout<T: Send + 'static>(secs: u64, f: impl FnOnce() -> T + Send + 'static) -> Option<T> {
+    let (tx, rx) = std::sync::mpsc::channel();
+    let h = std::thread::spawn(move || {
+        let _ = tx.send(f());
+    });
+    match rx.recv_timeout(std::time::Duration::from_secs(secs)) {
+        Ok(v) => {
+            let _ = h.join();
+            Some(v)
+        }
+        Err(_) => None,
+    }
 }
 
 pub fn compress_for(path: &str, data: &[u8]) -> Vec<u8> {
@@ -54,7 +91,11 @@ pub fn compress_for(path: &str, data: &[u8]) -> Vec<u8> {
 pub fn decompress_for(path: &str, data: Vec<u8>) -> Vec<u8> {
     if path.ends_with(".gz") {
         let mut out = Vec::new();
-        match flate2::read::GzDecoder::new(&data[..]).read_to_end(&mut out) {
+        // strict: `GzDecoder` stops after the first member and never looks at what follows, so an
+        // archive that was opened without truncation (old tail left behind a shorter new member)
+        // decoded "fine". `MultiGzDecoder` reads to the end of the input: further members are
+        // appended (and then differ from the model), anything else is an error — as with zstd.
+        match flate2::read::MultiGzDecoder::new(&data[..]).read_to_end(&mut out) {
             Ok(_) => out,
             Err(_) => [b"!undecodable-gz:".to_vec(), data].concat(),
         }
@@ -261,13 +302,13 @@ pub fn exec(fields: &[&str]) -> String {
         std::env::set_var(k, v);
     }
     let real_pattern = format!("{}/{}", root.display(), pattern);
-    let roller: Result<Box<dyn Roll>, ()> = if kind == "del" {
-        Ok(Box::new(DeleteRoller::new()))
+    let roller: Result<std::sync::Arc<dyn Roll>, ()> = if kind == "del" {
+        Ok(std::sync::Arc::new(DeleteRoller::new()))
     } else {
         match guarded(std::panic::AssertUnwindSafe(|| {
             FixedWindowRoller::builder().base(base).build(&real_pattern, count)
         })) {
-            Ok(Ok(r)) => Ok(Box::new(r)),
+            Ok(Ok(r)) => Ok(std::sync::Arc::new(r)),
             _ => Err(()),
         }
     };
@@ -290,18 +331,32 @@ pub fn exec(fields: &[&str]) -> String {
                 let baseline = n_threads();
                 let o = quiet_stdout(|| {
                     let mut out = vec![];
+                    let mut hung = false;
                     for (r, wait) in rolls.iter().zip(sched.iter()) {
+                        if hung {
+                            // the roller's condition variable is never signalled again
+                            out.push("HANG|-".to_owned());
+                            continue;
+                        }
                         if let Some(b) = r {
                             if write_file(&root, &file, b).is_err() {
                                 out.push("harness-cannot-write".to_owned());
                                 continue;
                             }
                         }
-                        let res = guarded(std::panic::AssertUnwindSafe(|| roller.roll(&path)));
+                        // the call runs on a thread of its own: a rotation thread that died before it
+                        // set `ready` makes `roll` wait for ever
+                        let (ro, pa) = (roller.clone(), path.clone());
+                        let res = run_with_timeout(4, move || guarded(std::panic::AssertUnwindSafe(|| ro.roll(&pa))));
                         let kind = match res {
-                            Ok(Ok(())) => "ok",
-                            Ok(Err(_)) => "err",
-                            Err(_) => "PANIC",
+                            Some(Ok(Ok(()))) => "ok",
+                            Some(Ok(Err(_))) => "err",
+                            Some(Err(_)) => "PANIC",
+                            None => {
+                                hung = true;
+                                out.push("HANG|-".to_owned());
+                                continue;
+                            }
                         };
                         if *wait {
                             let q = wait_quiescent(baseline);
@@ -310,7 +365,9 @@ pub fn exec(fields: &[&str]) -> String {
                             out.push(format!("{}|-", kind));
                         }
                     }
-                    wait_quiescent(baseline);
+                    if !hung {
+                        wait_quiescent(baseline);
+                    }
                     out
                 });
                 log4rs::verif_hooks::set_rotate_point(None);
@@ -516,6 +573,14 @@ fn distinct_rolls(rng: &mut Rng, n: usize, thorough: bool, missing_tail: bool) -
     if missing_tail {
         out.push(None);
     }
+    // a roll that finds no file, at ANY position (the active log was unlinked while the appender
+    // held it open and the trigger fired): the window must stay as it is and the history goes on
+    if rng.chance(1, 6) {
+        for _ in 0..rng.range(1, 2) {
+            let at = rng.range(0, out.len() as u64) as usize;
+            out.insert(at, None);
+        }
+    }
     out
 }
 
@@ -536,6 +601,45 @@ pub fn gen(rng: &mut Rng, n: usize, thorough: bool, emit: &mut dyn FnMut(String)
     for (b, c) in [(4294967295u64, 2u64), (4294967295, 1), (4294967294, 2), (4294967294, 1), (4294967290, 5), (4294967295, 0)] {
         let rolls: Vec<Option<Vec<u8>>> = (0..3).map(|k| Some(format!("edge{}\n", k).into_bytes())).collect();
         emit_case(emit, "fw", &SHAPES[0], b, c, &[], &rolls);
+    }
+
+    // a roll of a missing file in the middle of a history, every compression, full and partly filled
+    // windows (deterministic: the random histories add more)
+    for sh in [&SHAPES[0], &SHAPES[2], &SHAPES[9], &SHAPES[10]] {
+        for (b, c) in [(0u64, 1u64), (0, 2), (1, 3), (9, 4)] {
+            for pre in [0u64, 1, c, c + 1] {
+                let mut rolls: Vec<Option<Vec<u8>>> = (0..pre).map(|k| Some(format!("m{}\n", k).into_bytes())).collect();
+                rolls.push(None);
+                rolls.push(None);
+                rolls.extend((0..2).map(|k| Some(format!("n{}\n", k).into_bytes())));
+                rolls.push(None);
+                emit_case(emit, "fw", sh, b, c, &[], &rolls);
+            }
+        }
+    }
+    // the reviewer's window [B, A]: pre-existing archives, nothing to roll
+    emit_case(
+        emit,
+        "fw",
+        &SHAPES[0],
+        0,
+        2,
+        &[("foo.log.0".to_owned(), b"B".to_vec()), ("foo.log.1".to_owned(), b"A".to_vec())],
+        &[None, Some(b"C".to_vec()), None],
+    );
+    // windows larger than 5 (the shift loop over many slots, two-digit indices next to one-digit ones):
+    // from empty past eviction, and from a pre-filled window with a gap
+    for &c in &[6u64, 9, 17] {
+        for (b, sh) in [(0u64, &SHAPES[0]), (9, &SHAPES[2]), (3, &SHAPES[9])] {
+            let rolls: Vec<Option<Vec<u8>>> = (0..c + 2).map(|k| Some(format!("w{}\n", k).into_bytes())).collect();
+            emit_case(emit, "fw", sh, b, c, &[], &rolls);
+            let init: Vec<(String, Vec<u8>)> = (0..c + 1)
+                .filter(|j| *j != 2 && *j != c - 2)
+                .map(|j| (name_of(sh, b + j), format!("old{}", j).into_bytes()))
+                .collect();
+            let rolls: Vec<Option<Vec<u8>>> = (0..3).map(|k| Some(format!("v{}\n", k).into_bytes())).collect();
+            emit_case(emit, "fw", sh, b, c, &init, &rolls);
+        }
     }
 
     // large incompressible files through the compressing rollers: a codec that is fed in chunks must not
@@ -588,8 +692,9 @@ pub fn gen(rng: &mut Rng, n: usize, thorough: bool, emit: &mut dyn FnMut(String)
         let sh: &Shape = *rng.pick(&shapes);
         let kind = if !is_bg && rng.chance(1, 12) { "del" } else { "fw" };
         let b = *rng.pick(bases);
-        let c = if is_bg { rng.range(0, 4) } else { rng.range(0, 5) };
-        let max_rolls = if is_bg { 8 } else if thorough || rng.chance(1, 4) { 12 } else { 7 };
+        let big = !is_bg && rng.chance(1, 16);
+        let c = if is_bg { rng.range(0, 4) } else if big { *rng.pick(&[6u64, 9, 17]) } else { rng.range(0, 5) };
+        let max_rolls = if big { c + 3 } else if is_bg { 8 } else if thorough || rng.chance(1, 4) { 12 } else { 7 };
         let n_rolls = rng.range(0, max_rolls) as usize;
         let missing_tail = rng.chance(1, 10);
         let mut rolls = distinct_rolls(rng, n_rolls, thorough, missing_tail);
